@@ -186,7 +186,8 @@ def replay_array(prop, result, fresh, wd, info):
 def replay_resource(prop, result, fresh, wd, info):
     """A failed monitor obligation is one step from an invariant state, not a schedule.  The replay runs the REAL
     Resource.cpp against shim <mutex>/<condition_variable> headers and forces the two schedules the invariant exists to
-    exclude (an admitted reader that is slow to wake up while its sibling finishes, with and without a queued writer)."""
+    exclude (A/B: an admitted reader that is slow to wake up while its sibling finishes, with and without a queued writer;
+    C: reader, writer, reader parked behind a writer; D: a reader arriving while a writer is parked)."""
     exe = os.path.join(wd, 'res_replay')
     cmd = ['g++', '-std=c++20', '-g', '-O0', '-DNDEBUG', '-Wno-volatile', '-isystem', os.path.join(ROOT, 'replay', 'shim'),
            '-I', os.path.join(REPO, 'include'), '-I', REPO, os.path.join(ROOT, 'replay', 'res_replay.cpp'), '-o', exe, '-lpthread']
@@ -195,8 +196,8 @@ def replay_resource(prop, result, fresh, wd, info):
         info['native'] = 'replay driver does not build against the current tree: ' + out[-1500:]
         return False
     outs = {}
-    for sc in ('A', 'B'):
-        for attempt in range(3):
+    for sc in ('A', 'B', 'C', 'D'):
+        for attempt in range(2):
             rc, o = _run(['timeout', '60', exe, sc], timeout=90)
             outs[sc] = o.strip()[-300:]
             if 'CONFIRMED' in o:
